@@ -201,12 +201,17 @@ def run(chk, replay=None):
                             if o["hex"] != "-" else "", "oracle": o["verdict"]}, limit=12)
     if cross:
         ld = C.build_harness("c12_load", "asan", extra_flags=["-DVERIF_INC=" + inc_hash()])
-        reqs = [f"ld {typ} {o['ints'].split()[0] if typ == 'cache' else 1} {msave}" for typ, _, _, o, msave in cross]
+        def second(typ, o):          # cache: bits of the fresh target; models: problem id; else a target seed
+            return o["ints"].split()[0] if typ == "cache" else o["tags"].get("prob", 0) if typ == "lam" else 1
+        reqs = [f"ld {typ} {second(typ, o)} {msave}" for typ, _, _, o, msave in cross]
         outs, deaths = C.run_lines(ld, reqs, timeout=3000)
         for (typ, gen, i, o, msave), a in zip(cross, outs):
             t = a.split()
             got = " ".join(t[2:]) if len(t) > 2 else ""
-            if not (t and t[0] == "ok" and got == o["ints"]):
+            # models have no description on the C++ side of this entry: the reloaded model is saved again
+            # and must give the bytes vita wrote for the original
+            same = (got == o["hex"]) if typ == "lam" else (got == o["ints"])
+            if not (t and t[0] == "ok" and same):
                 ndis += 1
                 if ndis <= 3:
                     broken.append(f"model and code disagree on save of a {typ} object (gen {gen}, index {i}): the real "
